@@ -39,6 +39,9 @@ def one(meta):
 
 
 metas = sorted(glob.glob(os.path.join(HERE, "seeded", "*", "meta.json")))
+import sys as _sys
+if _sys.argv[1:]:   # optional filters: substrings of the seed id
+    metas = [m for m in metas if any(a in os.path.basename(os.path.dirname(m)) for a in _sys.argv[1:])]
 with ThreadPoolExecutor(max_workers=8) as ex:
     for sid, txt in ex.map(one, metas):
         print(sid, txt)
